@@ -35,6 +35,15 @@ def build_obs(tier, tables):
     obs += push_obs("c07") + [o for o in pop_obs("c07") if "own" in o.key]
     # what is left open when a parse is aborted inside an included file (recorded finding)
     obs += [o for o in rest_obs("c07", depths=(1, 3)) if "-sc0-qs0-" in o.key]
+    # file-name resolution: a look-up releases every candidate name it rejects (path_step.c counts the library's own
+    # allocations during the call)
+    import copy
+    import props.C17 as C17
+    for o in C17.build_obs(tier, with_lexer=False):
+        if o.key.startswith("searchpath-"):
+            o = copy.deepcopy(o)
+            o.key = "c07-" + o.key
+            obs.append(o)
     return obs
 
 
